@@ -229,10 +229,11 @@ class Node:
             realm_name: {"_default": []}
         }
         self._app_waiting_answer: dict[str, Application] = {}
-        # An internal list of hop-by-hop IDs and peers waiting for a matching
-        # answer message. The dictionary contains host identities as keys, with
-        # dictionaries of hop-by-hop ids and request sent timestamps as values.
-        self._peer_waiting_answer: dict[str, dict[int, float]] = {}
+        # An internal list of requests and the connections waiting for a
+        # matching answer message. The dictionary contains connection idents as
+        # keys, with dictionaries of (hop-by-hop id, end-to-end id) pairs and
+        # request received timestamps as values.
+        self._peer_waiting_answer: dict[str, dict[tuple[int, int], float]] = {}
         # An internal list that keeps track of which origin-host is expecting
         # which answer. The list is a dictionary with message identifiers as
         # keys and origin-hosts as answers. This is mostly required for keeping
@@ -998,10 +999,14 @@ class Node:
                     break
 
         if receiving_app:
-            if conn.host_identity not in self._peer_waiting_answer:
-                self._peer_waiting_answer[conn.host_identity] = {}
-            waiting = self._peer_waiting_answer[conn.host_identity]
-            waiting[message.header.hop_by_hop_identifier] = time.time()
+            # an answer is routed back to exactly this connection; the
+            # identifiers are unique within the connection only
+            if conn.ident not in self._peer_waiting_answer:
+                self._peer_waiting_answer[conn.ident] = {}
+            waiting = self._peer_waiting_answer[conn.ident]
+            message_id = (message.header.hop_by_hop_identifier,
+                          message.header.end_to_end_identifier)
+            waiting[message_id] = time.time()
             receiving_app.receive_request(message)
             return
 
@@ -1497,8 +1502,8 @@ class Node:
 
         # Remove pending answer tracking; we cannot know if the peer will
         # persist its hop-by-hop IDs over reconnect.
-        if conn.host_identity in self._peer_waiting_answer:
-            del self._peer_waiting_answer[conn.host_identity]
+        if conn.ident in self._peer_waiting_answer:
+            del self._peer_waiting_answer[conn.ident]
 
         # Check if this was the last available peer for an app and clear app
         # ready flag if so, resulting in `wait_for_ready` to block again.
@@ -1589,29 +1594,26 @@ class Node:
                 time
 
         """
-        message_id = message.header.hop_by_hop_identifier
-        waiting_host_identity = None
-        for host_identity, messages in list(self._peer_waiting_answer.items()):
+        message_id = (message.header.hop_by_hop_identifier,
+                      message.header.end_to_end_identifier)
+        waiting_conn_ident = None
+        for conn_ident, messages in list(self._peer_waiting_answer.items()):
             if message_id in messages:
-                waiting_host_identity = host_identity
+                waiting_conn_ident = conn_ident
                 break
 
-        if waiting_host_identity is None:
+        if waiting_conn_ident is None:
             raise NotRoutable(
-                f"No peer is waiting for an answer with ID {hex(message_id)}")
+                f"No peer is waiting for an answer with ID "
+                f"{hex(message.header.hop_by_hop_identifier)}")
 
-        del self._peer_waiting_answer[waiting_host_identity][message_id]
+        del self._peer_waiting_answer[waiting_conn_ident][message_id]
 
-        conn = None
-        for connected_peer in list(self.connections.values()):
-            if connected_peer.host_identity == waiting_host_identity:
-                conn = connected_peer
-                break
-
+        conn = self.connections.get(waiting_conn_ident)
         if conn is None:
             raise NotRoutable(
-                f"Connection waiting for an answer with ID {hex(message_id)} "
-                f"has gone away")
+                f"Connection waiting for an answer with ID "
+                f"{hex(message.header.hop_by_hop_identifier)} has gone away")
 
         if conn.state not in PEER_READY_STATES:
             raise NotRoutable(
@@ -1708,13 +1710,14 @@ class Node:
                 request or an answer.
 
         """
-        message_id = message.header.hop_by_hop_identifier
+        message_id = (message.header.hop_by_hop_identifier,
+                      message.header.end_to_end_identifier)
         if (not message.header.is_request and
-                conn.host_identity in self._peer_waiting_answer and
-                message_id in self._peer_waiting_answer[conn.host_identity]):
+                conn.ident in self._peer_waiting_answer and
+                message_id in self._peer_waiting_answer[conn.ident]):
             # cleanup in case someone is sending messages directly without
             # using _route_answer
-            del self._peer_waiting_answer[conn.host_identity][message_id]
+            del self._peer_waiting_answer[conn.ident][message_id]
         conn.add_out_msg(message)
         if not message.header.is_request:
             self._record_answer(conn, message)
